@@ -93,7 +93,14 @@ func LoadFile(path string) {
 }
 
 // Reset restarts consumption of the replay records (used by the replay test).
-func Reset() { load(); pos = 0 }
+func Reset() {
+	load()
+	pos = 0
+	for _, d := range tmpDirs {
+		os.RemoveAll(d)
+	}
+	tmpDirs = nil
+}
 
 func next(tag, kind string) rec {
 	load()
@@ -189,19 +196,16 @@ var castagnoli = crc32.MakeTable(crc32.Castagnoli)
 // function that stands for hash/crc32 and klauspost/crc32 Update.
 func CRC32C(prev uint32, data []byte) uint32 { return crc32.Update(prev, castagnoli, data) }
 
-var tmpDir string
+var tmpDirs []string
 
 // TempDir returns a scratch directory: a fixed virtual path under the engine's in-memory file
 // system, a fresh real directory natively.
 func TempDir() string {
-	if tmpDir != "" {
-		os.RemoveAll(tmpDir)
-	}
 	d, err := os.MkdirTemp("", "verifreplay")
 	if err != nil {
 		panic(err)
 	}
-	tmpDir = d
+	tmpDirs = append(tmpDirs, d)
 	return d
 }
 
